@@ -7,6 +7,14 @@ CHECKS = {
   text="Bounded symbolic model checking of refine_hmmscan_results (both modes) with its helpers, of filter_results / filter_result_multiple and of hmmer.remove_overlapping on k <= 3 (quick) / 4 (thorough) hits with symbolic coordinates (ints) and scores / e-values (reals), every profile assignment over 2-3 profiles, every input order and every set-iteration numbering: results ordered by position, identical for every order, kept hits are inputs or spanning same-profile merges with best score, no two kept hits overlap beyond the margin, dropped hits have a better-ranked overlapping kept hit, one survivor per overlap group / profile.",
   note="Profile lengths 15/35 and cutoffs 20/30 are concrete; set iteration order is modelled as harness-chosen (every order supplied); doubles that are nearest to simple fractions are read as those fractions (DESIGN 1.4). Known finding C13-1 (greedy comparison against the last kept hit only) is reported as KNOWN-FINDING, anything outside its region is a violation.",
   ref="3/C13"),
+ "C14": dict(
+  text="Bounded symbolic model checking of build_modules_for_cds / Module.add_component / ensure_suitable / is_complete / to_json+from_json and combine_modules with every domain NAME symbolic over the full alphabet of CLASSIFICATIONS (~70 names; membership tests on the re-wrapped constant sets are decided by the solver, so paths are behaviour classes) and symbolic KS subtype: sequences of length <= 3 (quick, plus length-4 sequences starting with two carrier proteins) / 4 (thorough); construction never fails, domains partitioned in order without loss, every documented layout rule per module, is_complete iff documented, module rebuilt from its saved form identical; adjacent gene pairs: merge only on the same strand, only of an incomplete trailing module, only if the result is complete, all domains kept in order.",
+  note="Domain coordinates are fixed (increasing); get_monomer strings are not claimed; `str` is replaced inside the modules under test by a variant that leaves symbolic names symbolic.",
+  ref="3/C14"),
+ "C15": dict(
+  text="Bounded symbolic model checking of scan_orfs on windows of concrete length <= 10 (quick) / 12 (thorough) whose every base is symbolic over {A,C,G,T,N,a,t,g}, both directions, symbolic offset (incl. negative: windows crossing the origin), record length and minimum length, against an independent reference scanner written as formulas over the codon predicates: every reported location is a real ORF and, extracted on its strand in part order, visits exactly the ORF's bases in reading order (for all positions t); every ORF is reported; and of find_intergenic_areas on <= 3 genes (nested/overlapping) with symbolic coordinates, padding and minimum length.",
+  note="'At least the minimum length' is read as pinned by the repository's own test (last base - first base >= minimum). find_all_orfs glue (slicing a real Seq) and translation text are outside the claim; record length > window length.",
+  ref="3/C15"),
  "C01": dict(
   text="Bounded symbolic model checking of the real rule evaluator (DetectionRule.detect and every Conditions subclass) on condition trees parsed from text by the real Parser: for each enumerated tree (22 quick / ~150 thorough; not/and/or/groups/cds/minimum/minscore over 2 profiles) the evaluation at a gene with 2 neighbours is executed on symbolic gene coordinates, cutoff, record length, hit presence (booleans) and bitscores (reals), and z3 must answer unsat for path /\\ not(documented formula) for met, the reason profiles and the anchoring decision; distance-at-cutoff and across-origin cases are solver-chosen.",
   note="Trees are enumerated (the programs axis is sampled, inputs are symbolic). Details.in_range is explored as a function summary (same code). 3 genes, 2 profiles; minscore inside cds() is outside the documented grammar and not claimed.",
